@@ -324,6 +324,58 @@ Section Respelling.
   Qed.
 End Respelling.
 
+(* A BLANK frontmatter block (whitespace only) is dropped by the emitter, so x and canon x differ in dfront (Some blank / None).
+   The verdict survives that IF the frontmatter oracle treats a blank block like an absent one -- an explicit hypothesis about
+   validate_frontmatter, tested by the harness on every blank-frontmatter respelling; where it fails (a TAB-only block is rejected
+   by yaml.safe_load) the verdicts differ: finding C09-blank-frontmatter-unloadable *)
+Definition blank_front (sp : N -> bool) (f : option str) : option str :=
+  match f with Some t => if forallb sp t then None else Some t | None => None end.
+Definition drop_blank_front (sp : N -> bool) (d : doc) : doc :=
+  mkDoc (dname d) (dgrammar d) (blank_front sp (dfront d)) (dsep d) (dmeta d) (dsections d) (dtrailing d).
+Definition fm_blank_as_absent (o : oracles) (sp : N -> bool) : Prop :=
+  forall t : str, forallb sp t = true -> or_fm o (Some t) = or_fm o None.
+
+Lemma emit_drop_blank_front sp d : emit sp (drop_blank_front sp d) = emit sp d.
+Proof.
+  unfold emit, emit_lines, drop_blank_front, blank_front. cbn [dfront dgrammar dname dmeta dsep dsections dtrailing].
+  destruct (dfront d) as [t|]; [|reflexivity]. destruct (forallb sp t) eqn:E; [reflexivity|]. rewrite E. reflexivity.
+Qed.
+
+Theorem validator_errors_blank_front o sp bm strict ss d :
+  fm_blank_as_absent o sp -> validator_errors o bm strict ss (drop_blank_front sp d) = validator_errors o bm strict ss d.
+Proof.
+  intro H. destruct d as [nm gr fr sepb mt secs tr]. unfold validator_errors, drop_blank_front, blank_front.
+  cbn [dfront dmeta dsections dname dgrammar dsep dtrailing].
+  destruct fr as [t|]; [|reflexivity]. destruct (forallb sp t) eqn:E; [|reflexivity].
+  destruct ss as [sd|]; [destruct (sd_has_fm sd)|]; rewrite ?(H t E); reflexivity.
+Qed.
+Theorem verdict_blank_front o sp s p d :
+  fm_blank_as_absent o sp -> verdict o s p (drop_blank_front sp d) = verdict o s p d.
+Proof. intro H. unfold verdict. rewrite !(validator_errors_blank_front o sp _ _ _ d H). reflexivity. Qed.
+
+Definition verdict_blank_front_full : Prop :=
+  forall o sp s p d, verdict o s p (drop_blank_front sp d) = verdict o s p d.
+Definition ex_fm_sdef : sdef :=
+  mksdef (lit "S") (mkschema [(lit "F", Some [COpt])] p_IGNORE) [(lit "F", Some (lit "SELF"))] None [] true.
+(* the frontmatter oracle as the code behaves on a TAB-only block: E_FM_PARSE for the block, nothing when it is absent *)
+Definition ex_fm_oracles : oracles :=
+  mkoracles (fun _ => FNan) (fun _ _ => orc_none) (fun c => N.eqb c 32 || N.eqb c 9)
+            (fun f => match f with Some _ => [(lit "E_FM_PARSE", lit "frontmatter")] | None => [] end).
+Theorem verdict_blank_front_refuted : ~ verdict_blank_front_full.
+Proof.
+  intro H.
+  specialize (H ex_fm_oracles (fun c => N.eqb c 32 || N.eqb c 9) (mkvschema None (Some ex_fm_sdef)) (lit "STANDARD")
+                (mkDoc (lit "D") None (Some [9]) false [] [NBlock (lit "S") None [NAssign (lit "F") (VNum false (lit "1")) [] None] []] [])).
+  vm_compute in H. discriminate.
+Qed.
+Example fm_blank_as_absent_ex :
+  fm_blank_as_absent (mkoracles (fun _ => FNan) (fun _ _ => orc_none) (fun c => N.eqb c 32)
+                        (fun f => match blank_front (fun c => N.eqb c 32) f with
+                                  | Some _ => []
+                                  | None => [(lit "E_FM_REQUIRED", lit "frontmatter.name")]
+                                  end)) (fun c => N.eqb c 32).
+Proof. intros t Ht. cbn [or_fm blank_front]. rewrite Ht. reflexivity. Qed.
+
 (* without the round-trip hypothesis: "equal canonical text => equal verdict" is FALSE of the faithful model, because the
    emitter prints a non-finite float and the string of the same spelling alike (C02 finding nonfinite-float:
    wf clause 15).  TYPE[NUMBER] accepts the float and rejects the string. *)
